@@ -22,17 +22,18 @@ static const char *const fault_names[] = { "thread_preempt", "irq_inject", "irq_
 					   "claim_refused_full", "stall", NULL };
 enum { P_FULL_WITH_CLAIMS_IN_FLIGHT, P_TWO_CLAIMS_OVERLAP, P_SEND_OUT_OF_CLAIM_ORDER, P_HELD_SEVERAL,
        P_WRAPPED, P_DEPTH1, P_DEPTH32, P_RECEIVE_BLOCKED, P_STALLED_BETWEEN_CLAIM_AND_SEND,
-       P_MODE_THR, P_MODE_IRQ, P_REFUSED_WHILE_OTHER_FAILING, P_CONSERVATION_CHECKED };
+       P_MODE_THR, P_MODE_IRQ, P_REFUSED_WHILE_OTHER_FAILING, P_CONSERVATION_CHECKED, P_LONG_LIVED,
+       P_OVER_256_CLAIMS };
 static const char *const probe_names[] = {
 	"claim_refused_while_other_claims_in_flight", "two_claims_overlapped",
 	"sends_out_of_claim_order", "receiver_held_several", "slot_index_wrapped", "depth_1",
 	"depth_32", "receive_found_oldest_unsent", "sender_preempted_between_claim_and_send",
 	"mode_threads", "mode_irq", "claim_refused_while_another_refusal_in_flight",
-	"conservation_checked_at_quiescence", NULL };
+	"conservation_checked_at_quiescence", "long_lived_queue", "more_than_256_claims", NULL };
 
 #define MAXDEPTH 32
 #define MAXSENDERS 4
-#define MAXCLAIMS 256
+#define MAXCLAIMS 1024
 
 static messageq_t *mq;
 static uint8_t *store;
@@ -169,6 +170,8 @@ static int do_claim(uint8_t sender, void **out)
 	claim[g].seq = snd[sender].seq;
 	claim[g].sent = claim[g].received = false;
 	n_claims++;
+	if (n_claims == 257)
+		sim_probe(P_OVER_256_CLAIMS);
 	sim_ev("claim.ret", sender, g, s);
 	*out = p;
 	return g;
@@ -334,8 +337,15 @@ static void run(void)
 	nsenders = 1 + sim_choose(MAXSENDERS);
 	hold_max = sim_choose(3) ? 0 : sim_choose(depth + 1);
 	uint32_t total = depth * (1 + sim_choose(3)) + sim_choose(4);
-	if (total > MAXCLAIMS / 2)
-		total = MAXCLAIMS / 2;
+	if (total > 128)
+		total = 128;
+	if (sim_chance(1, 40)) {
+		/* a long-lived queue whose depth does not divide 256: 8-bit cursors and counters wrap */
+		static const uint8_t odd[] = { 3, 5, 6, 7 };
+		depth = odd[sim_choose(4)];
+		total = 270 + sim_choose(300);
+		sim_probe(P_LONG_LIVED);
+	}
 	int strat = sim_choose(SIMRT_NSTRAT);
 	uint32_t sparam = strat == SIMRT_STRAT_PCT ? 1 + sim_choose(4) :
 			  strat == SIMRT_STRAT_KPREEMPT ? 1 + sim_choose(3) : 1 + sim_choose(4);
@@ -348,7 +358,7 @@ static void run(void)
 	simrt_region_add(store, depth * msg_len, SIMRT_SHARED, "message-storage");
 	simrt_region_add(mq, sizeof(*mq), SIMRT_SHARED, "queue-descriptor");
 	simrt_bounds(true);
-	sim_budget(1500000);
+	sim_budget(total > 200 ? 40000000 : 1500000);
 	messageq_init(mq, store, depth * msg_len, msg_len);
 
 	memset(slot, 0, sizeof(slot));
@@ -387,7 +397,13 @@ static void run(void)
 		simrt_irq_handler(irq_handler, 2);
 		simrt_irq_plan(total > 32 ? 32 : total, 1 + sim_choose(sim_choose(2) ? 10 : 50));
 		recv_attempts = 2 * total + 4;
+		uint32_t planned = total > 32 ? 32 : total;
 		for (uint32_t i = 0; i < recv_attempts; i++) {
+			if (!simrt_irq_pending() && planned < total) {
+				uint32_t n = total - planned > 32 ? 32 : total - planned;
+				planned += n;
+				simrt_irq_plan(n, 1 + sim_choose(30));
+			}
 			bool got = receiver_step();
 			while (n_received - n_released > hold_max || (!got && n_received > n_released))
 				receiver_release_one();
